@@ -47,6 +47,7 @@ class _W(object):
         self.none_mark = 0
         self.out = []
         self.probes = {}
+        self.fail_serials = set(case.get("fail_serials", []))
 
     def probe(self, k):
         self.probes[k] = self.probes.get(k, 0) + 1
@@ -60,7 +61,8 @@ class _W(object):
             self.nitem += 1
             yield real.SimItem(self.B.current[(a // 2) % 2], "i%d" % self.nitem, "k", self.B)
         self.log.append(("end", s, key))
-        if a >= 8:
+        if a >= 8 or (s in self.fail_serials and a != 4):
+            # (a >= 8: this key always fails; fail_serials: the n-th body run of the history fails)
             raise SimError("body:%r#%d" % (key, s))
         if a == 4:
             self.none_runs.append((key, s))
@@ -127,7 +129,11 @@ class C13(object):
         return {"target": target, "maxsize": rng.randint(1, 4), "ttl": rng.choice([0, 100, 100, 1000, 86400 * 10 ** 6]),
                 "clock_origin": rng.choice([None, None, 5, 50, 10 ** 9]),
                 "lazy_blocks": rng.random() < 0.5, "lazy_fail_every": rng.choice([0, 0, 2, 3]),
-                "steps": steps, "prio": gen.gen_prio(rng, 2)}
+                "steps": steps, "prio": gen.gen_prio(rng, 2),
+                # the n-th body run of the history fails (whatever its key)
+                "fail_serials": sorted(rng.sample(range(1, 13), rng.randint(1, 3))) if rng.random() < 0.3 else [],
+                # one configured decorator object applied to two functions
+                "shared_deco": rng.random() < 0.3}
 
     def sample(self, case, r):
         return case
@@ -197,10 +203,15 @@ class C13(object):
                 continue
             W.probe("miss")
             # a miss: the body must have run for exactly this call
-            if a >= 8:
+            if a >= 8 or (res[0] == "E" and res[1].startswith("body:%r#" % ((who_of(who), a, b, c),))
+                          and int(res[1].rsplit("#", 1)[1]) in W.fail_serials):
                 if res[0] != "E" or not res[1].startswith("body:%r" % ((who_of(who), a, b, c),)):
                     W.out.append(("miss-error", "step %d: call %r must run its (raising) body, but gave %r" % (step_no, (who, a, b, c), res)))
                     return
+                if int(res[1].rsplit("#", 1)[1]) in self.seen:
+                    W.out.append(("miss-ran-body", "step %d: call %r is a miss but was served the failure of an earlier body run %r" % (step_no, (who, a, b, c), res[1])))
+                    return
+                self.seen.add(int(res[1].rsplit("#", 1)[1]))
                 W.probe("failing_body")
                 continue  # failures are not cached
             if res[0] != "V" or tuple(res[1][:4]) != (who_of(who), a, b, c):
@@ -244,30 +255,42 @@ class C13(object):
 
         def body(a, b=0, *, c=0):
             return (yield from W.body("f", a, b, c))
+        def body2(a, b=0, *, c=0):
+            return (yield from W.body("g", a, b, c))
         inner = A.asynq()(body)
+        inner2 = A.asynq()(body2)
         if keyfn:
             def key_fn(args, kwargs):
                 # only `a` matters for this function's users
                 return args[0] if args else kwargs["a"]
-            cached = alru_cache(maxsize=maxsize, key_fn=key_fn)(inner)
+            deco = alru_cache(maxsize=maxsize, key_fn=key_fn)
             keyf = lambda who, a, b, c: a
         else:
-            cached = alru_cache(maxsize=maxsize)(inner)
+            deco = alru_cache(maxsize=maxsize)
             keyf = lambda who, a, b, c: (a, b, c)
-        ref = RefLRU(maxsize)
+        shared = bool(case.get("shared_deco"))
+        # the configured decorator object may be kept and applied to several functions: each
+        # decorated function has a cache of its own
+        fns = {"f": deco(inner), "g": deco(inner2) if shared else None}
+        refs = {"f": RefLRU(maxsize), "g": RefLRU(maxsize)}
         for n, st in enumerate(case.get("steps", [])):
             if st[0] != "call":
                 continue
-            calls = [("f", a, b, c) for (_, a, b, c, form) in st[1]]
+            calls = [("g" if (shared and who == 2) else "f", a, b, c) for (who, a, b, c, form) in st[1]]
             forms = [spell(a, b, c, form) for (_, a, b, c, form) in st[1]]
             try:
-                results = self._drive(W, lambda: [cached.asynq(*args, **kw) for args, kw in forms])
+                results = self._drive(W, lambda: [fns[cl[0]].asynq(*args, **kw) for cl, (args, kw) in zip(calls, forms)])
             except BaseException as e:
                 W.out.append(("unexpected", "step %d raised %s: %s" % (n, type(e).__name__, str(e)[:120])))
                 return
-            self._judge_step(W, ref, calls, results, keyf, lambda w: w, n)
-            if W.out:
-                return
+            for name in ("f", "g"):
+                idx = [j for j, cl in enumerate(calls) if cl[0] == name]
+                if idx:
+                    if name == "g":
+                        W.probe("second_function_of_one_decorator_object")
+                    self._judge_step(W, refs[name], [calls[j] for j in idx], [results[j] for j in idx], keyf, lambda w: w, n)
+                if W.out:
+                    return
 
     # ---- acached_per_instance -------------------------------------------------------------------
     def _run_instances(self, W, case):
